@@ -5,17 +5,26 @@
 package zzverif
 
 import (
+	"bytes"
 	"crypto/sha256"
 	"encoding/json"
 	"fmt"
 	"os"
+	"runtime"
 	"strconv"
 	"sync"
 	"testing"
 	"time"
 )
 
+type schedStep struct {
+	Thread int    `json:"thread"`
+	Site   string `json:"site"`
+	Op     string `json:"op"`
+}
+
 type replayFile struct {
+	Schedule []schedStep           `json:"schedule"`
 	Harness string                 `json:"harness"`
 	Inputs  map[string]interface{} `json:"inputs"`
 	Expect  string                 `json:"expect"`
@@ -118,13 +127,26 @@ func Assume(c bool) {
 	}
 }
 
+// failCh carries the first assertion failure to RunReplay; the failing goroutine (which may be any goroutine of the
+// harness, not only the main one) then stops quietly instead of crashing the process.
+var failCh = make(chan string, 64)
+
 func Assert(c bool, id string) {
 	if !c {
-		panic(assertFail{id})
+		Fail(id)
 	}
 }
 
-func Fail(id string) { panic(assertFail{id}) }
+func Fail(id string) {
+	select {
+	case failCh <- id:
+	default:
+	}
+	schedMu.Lock()
+	release("")
+	schedMu.Unlock()
+	runtime.Goexit()
+}
 
 func Cover(id string) {
 	mu.Lock()
@@ -214,13 +236,14 @@ func RunReplay(t *testing.T, harnesses map[string]func()) {
 	if !ok {
 		t.Fatalf("unknown harness %q", rf.Harness)
 	}
+	started := make(chan struct{})
 	outcome := make(chan string, 1)
 	go func() {
+		schedInit()
+		close(started)
 		defer func() {
 			if r := recover(); r != nil {
-				switch e := r.(type) {
-				case assertFail:
-					outcome <- "assert:" + e.id
+				switch r.(type) {
 				case assumeFail:
 					outcome <- "assume-failed"
 				default:
@@ -238,9 +261,17 @@ func RunReplay(t *testing.T, harnesses map[string]func()) {
 			timeout = d
 		}
 	}
+	<-started
 	var res string
 	select {
+	case id := <-failCh:
+		res = "assert:" + id
 	case res = <-outcome:
+		select {
+		case id := <-failCh:
+			res = "assert:" + id
+		default:
+		}
 	case <-time.After(timeout):
 		res = "timeout"
 	}
@@ -248,5 +279,112 @@ func RunReplay(t *testing.T, harnesses map[string]func()) {
 	cv, _ := json.Marshal(covers)
 	ms, _ := json.Marshal(missing)
 	mu.Unlock()
+	schedMu.Lock()
+	dv, sp := diverged, schedPos
+	schedMu.Unlock()
 	fmt.Printf("VERIF-REPLAY harness=%s outcome=%s covers=%s missing=%s\n", rf.Harness, strconv.Quote(res), cv, ms)
+	fmt.Printf("VERIF-SCHED steps=%d/%d diverged=%q\n", sp, len(rf.Schedule), dv)
+}
+
+// ---- schedule replay -------------------------------------------------------------------------------------------
+// The instrumented build calls Sched(site, n) in front of every statement that contains synchronisation operations.
+// The controller makes the instrumented goroutines pass these points in exactly the order of the schedule found by
+// the engine; when the schedule is exhausted, or the execution diverges from it, every goroutine runs freely.
+
+var (
+	schedMu    sync.Mutex
+	schedCond  = sync.NewCond(&schedMu)
+	schedPos   int
+	schedOff   = true
+	diverged   string
+	goids      = map[uint64]int{}
+	nextThread = 1
+)
+
+func goid() uint64 {
+	var buf [64]byte
+	n := runtime.Stack(buf[:], false)
+	f := bytes.Fields(buf[:n])
+	if len(f) < 2 {
+		return 0
+	}
+	id, _ := strconv.ParseUint(string(f[1]), 10, 64)
+	return id
+}
+
+func schedInit() {
+	schedMu.Lock()
+	defer schedMu.Unlock()
+	goids[goid()] = 0
+	schedOff = len(rf.Schedule) == 0
+	if os.Getenv("VERIF_NOSCHED") != "" {
+		schedOff = true
+	}
+}
+
+func NewThread() int {
+	schedMu.Lock()
+	defer schedMu.Unlock()
+	id := nextThread
+	nextThread++
+	return id
+}
+
+func ThreadStart(id int) {
+	schedMu.Lock()
+	goids[goid()] = id
+	schedMu.Unlock()
+	schedCond.Broadcast()
+}
+
+func ThreadEnd(id int) {}
+
+func release(why string) {
+	if !schedOff {
+		schedOff = true
+		if why != "" {
+			diverged = why
+		}
+	}
+	schedCond.Broadcast()
+}
+
+func Sched(site string, n int) {
+	schedMu.Lock()
+	defer schedMu.Unlock()
+	if schedOff {
+		return
+	}
+	tid, ok := goids[goid()]
+	if !ok {
+		return // goroutine started by uninstrumented code
+	}
+	deadline := time.Now().Add(3 * time.Second)
+	for !schedOff {
+		if schedPos >= len(rf.Schedule) {
+			release("")
+			return
+		}
+		head := rf.Schedule[schedPos]
+		if head.Thread == tid {
+			if head.Site != site {
+				release(fmt.Sprintf("thread %d is at %s but the schedule expects it at %s (step %d)", tid, site, head.Site, schedPos))
+				return
+			}
+			// this statement may contain up to n operations that were logged one by one
+			for k := 0; k < n && schedPos < len(rf.Schedule) && rf.Schedule[schedPos].Thread == tid && rf.Schedule[schedPos].Site == site; k++ {
+				schedPos++
+			}
+			schedCond.Broadcast()
+			return
+		}
+		if time.Now().After(deadline) {
+			release(fmt.Sprintf("thread %d did not arrive at %s (step %d) in time; thread %d waiting at %s", head.Thread, head.Site, schedPos, tid, site))
+			return
+		}
+		// wait for our turn (with a timeout so that a missing thread is noticed)
+		t := time.AfterFunc(100*time.Millisecond, func() { schedCond.Broadcast() })
+		schedCond.Wait()
+		t.Stop()
+	}
 }
